@@ -11,6 +11,7 @@ import (
 	"flag"
 	"fmt"
 	"os"
+	"strings"
 	"time"
 )
 
@@ -71,6 +72,7 @@ func init() {
 		stream := fs.Uint64("stream", 1, "PRNG stream")
 		depth := fs.Int("depth", 4, "AST depth")
 		maxCost := fs.Duration("maxcost", 60*time.Microsecond, "drop inputs on which one search costs the engine more than this")
+		spelling := fs.Bool("spelling", false, "C18: move the drawn options into a leading (?O) or a wrapping (?O:..) and compile without them")
 		nullable := fs.Bool("nullable", false, "allow nullable / nested quantifier operands (outside the C01 fragment)")
 		caseFile := fs.String("case", "", "replay: JSON file {p,o,dia,rtl,s} - record exactly this case")
 		fs.Parse(args)
@@ -149,6 +151,18 @@ func init() {
 			}
 			isRTL := *rtl == "yes" || (*rtl == "both" && g.chance(0.5))
 			g.resolveRefs(t, has(o, "n"))
+			if *spelling && len(o) > 0 {
+				switch g.pick(3) {
+				case 0:
+					t = T("cat", OptSet(strings.Join(o, ""), ""), t)
+				case 1:
+					t = Opt(strings.Join(o, ""), "", t)
+				default:
+					// options on for the whole pattern, switched off again inside a group that follows
+					t = T("cat", OptSet(strings.Join(o, ""), ""), t, Opt("", strings.Join(o, ""), Lit('a')))
+				}
+				o = []string{}
+			}
 			p := Flatten(t)
 			text := PrintPat(p, PrintOpts{X: has(o, "x"), RE2: dia == "re2", XNoise: g.pick(3)})
 			re, err := compile(text, optBits(o, dia, isRTL))
